@@ -247,15 +247,15 @@ def py_wc2utt(case):
 
 
 def coq_wc2utt(case):
-    m = case.get("wc2utt")
-    return "None" if m is None else co(cl([cp(cp(cs(wc[0]), cs(wc[1])), cs(u)) for wc, u in m]))
+    m = py_wc2utt(case)   # through the dict: a repeated key keeps its last value, exactly what the implementation is given
+    return "None" if m is None else co(cl([cp(cp(cs(wc[0]), cs(wc[1])), cs(u)) for wc, u in m.items()]))
 
 
 def coq_utt2wc(case):
-    m = case["utt2wc"]
+    m = py_utt2wc(case)
     if isinstance(m, str):
         return f"(inr {cs(m)})"
-    return "(inl " + cl([cp(cs(u), cp(cs(wc[0]), cs(wc[1]))) for u, wc in m]) + ")"
+    return "(inl " + cl([cp(cs(u), cp(cs(wc[0]), cs(wc[1]))) for u, wc in m.items()]) + ")"
 
 
 def parse_ctm_text(text):
@@ -344,7 +344,7 @@ def terms_ctm(case, out):
             if isinstance(m, str):
                 key = f"(fun u => (u, {cs(m)}))"
             else:
-                key = (f"(fun u => match assoc str_eqb u {cl([cp(cs(u), cp(cs(wc[0]), cs(wc[1]))) for u, wc in m])} "
+                key = (f"(fun u => match assoc str_eqb u {cl([cp(cs(u), cp(cs(wc[0]), cs(wc[1]))) for u, wc in py_utt2wc(case).items()])} "
                        "with Some wc => wc | None => ([], []) end)")
             tsq = cl([cp(cs(u), cl([cp(cs(t[0]), cz(t[1]), cz(t[2])) for t in tr])) for u, tr in case["ts"]])
             terms["spec: read(write ts) = ts up to order"] = (
@@ -560,7 +560,7 @@ def terms_tok(case, out):
     terms, meta = {}, []
     fs = case.get("fs")
     fsq = "None" if not fs else co(cq(Fraction(fs)))
-    t2i = "None" if case.get("token2id") is None else co(cl([cp(coq_tk(k), cz(v)) for k, v in case["token2id"]]))
+    t2i = "None" if case.get("token2id") is None else co(cl([cp(coq_tk(k), cz(v)) for k, v in {k: v for k, v in case["token2id"]}.items()]))
     unk = "None" if case.get("unk") is None else co(coq_tk(case["unk"]))
     skip = bool(case.get("skip"))
     if out["to_exc"] is not None:
@@ -592,7 +592,7 @@ def terms_tok(case, out):
                 else:
                     items.append(f"Plain {coq_tk(b)}")
             ok_len = len(out["back"]) == len(ref)
-            i2t = "None" if case.get("id2token") is None else co(cl([cp(cz(k), coq_tk(v)) for k, v in case["id2token"]]))
+            i2t = "None" if case.get("id2token") is None else co(cl([cp(cz(k), coq_tk(v)) for k, v in {k: v for k, v in case["id2token"]}.items()]))
             refq = cl([cp(cz(a), cz(b), cz(c)) for a, b, c in ref])
             terms["token_to_transcript = model"] = (
                 f"check_to_transcript {refq} {i2t} {fsq} {cl(items)}" if ok_len else "false")
@@ -634,7 +634,7 @@ def terms_tok_back(case, out):
             items.append(f"Timed {coq_tk(t)} {cq(qs)} {cq(qe)}")
         else:
             items.append(f"Plain {coq_tk(b)}")
-    i2t = "None" if case.get("id2token") is None else co(cl([cp(cz(k), coq_tk(v)) for k, v in case["id2token"]]))
+    i2t = "None" if case.get("id2token") is None else co(cl([cp(cz(k), coq_tk(v)) for k, v in {k: v for k, v in case["id2token"]}.items()]))
     refq = cl([cp(cz(a), cz(b), cz(c)) for a, b, c in rows])
     return {"token_to_transcript(any tensor) = model": f"check_to_transcript {refq} {i2t} {fsq} {cl(items)}"}, []
 
